@@ -16,15 +16,62 @@ def strings_upto(alpha, n):
 
 
 class Gen:
-    """Grammar-directed generator of well-formed programs (text), depth-bounded."""
+    """Grammar-directed generator of well-formed programs (text).
+    Structural choices come from [r]; layout choices (blanks, ';' vs newline, comments, line continuations, blank lines,
+    optional blanks around operators) come from [l], so the same structure can be rendered under different layouts."""
 
-    def __init__(self, rnd, heredocs=True, multiline=True):
+    CLOSERS = (")", "}", "fi", "done", "esac")
+
+    def __init__(self, rnd, heredocs=True, multiline=True, layout=None):
         self.r = rnd
-        self.heredocs = heredocs
+        self.l = layout if layout is not None else rnd
+        self.heredocs_on = heredocs
         self.multiline = multiline
         self.pending = []   # here-document bodies to emit at the next newline
-        self.hcount = 0
+        self.heredocs = []  # (op, delimiter word as written, body, delimiter line) in source order
+        self.comments = []  # comment texts in source order
+        self.with_comments = False
+        self.rich_layout = False   # extra blanks, tabs, line continuations, blank lines
 
+    # ---- layout
+    def B(self):
+        """blank(s) between two tokens"""
+        if not self.rich_layout:
+            return " "
+        return self.l.choice([" ", " ", " ", "  ", "\t", " \t ", " \\\n", "\\\n "])
+
+    def O(self):
+        """optional blank around an operator"""
+        return self.l.choice(["", " "]) if not self.rich_layout else self.l.choice(["", " ", "  ", "\t"])
+
+    def nl(self, own=True):
+        """a newline, flushing pending here-documents"""
+        c = ""
+        if self.with_comments and self.l.random() < 0.3:
+            t = self.l.choice([" c", "x y", " if then", " 'q", ' "d', " $(", " é", " a\\", " #", ""])
+            if t != "":
+                self.comments.append(t)
+            c = self.l.choice([" #", "\t#"]) + t
+        s = c + "\n" + "".join(self.pending)
+        self.pending = []
+        if self.rich_layout and self.l.random() < 0.15:
+            s += self.l.choice(["\n", " \n", "\n\n"])
+            if own and self.with_comments and self.l.random() < 0.3:
+                self.comments.append(" own line")
+                s += "# own line\n"
+        return s
+
+    def sep(self, after="", before_reserved=False):
+        if (self.multiline and self.l.random() < 0.3) or self.pending:
+            return self.nl()
+        a = after.rstrip()
+        if a.endswith("&") and not a.endswith("&&"):
+            return " "
+        if before_reserved and a.endswith(self.CLOSERS) and not a.endswith(("))", ";;")) and self.l.random() < 0.5:
+            return " "      # a reserved word may follow a compound command's closing token directly
+        return self.O() + ";" + self.O().replace("\t", " ") + ("" if self.l.random() < 0.5 else " ")
+
+    # ---- structure
     def name(self):
         return self.r.choice(["x", "y", "foo", "BAR", "_v1", "a1"])
 
@@ -53,7 +100,8 @@ class Gen:
                 return "${" + r.choice([self.name(), "#" + self.name(), "1", "@"]) + "}"
             return "${" + self.name() + op + r.choice(["", "w", "$z", "'q'", '"r s"', "a b", "${n:-m}", "*.c"]) + "}"
         if k < 0.88:
-            sub = Gen(self.r, heredocs=False, multiline=False)
+            sub = Gen(self.r, heredocs=False, multiline=False, layout=self.l)
+            sub.rich_layout = False
             return "$(" + sub.simple(d - 1) + ")"
         if k < 0.92:
             return "`" + r.choice(["a", "a b", "a | b"]) + "`"
@@ -64,20 +112,23 @@ class Gen:
     def redir(self, d):
         r = self.r
         k = r.random()
-        if self.heredocs and k < 0.25:
+        if self.heredocs_on and k < 0.25:
             delim = r.choice(["EOF", "E", "END1"])
             q = r.choice(["", "", "'", "\\"])
             op = r.choice(["<<", "<<-"])
-            body = r.choice(["", "line\n", "a $x\n", "\n", "  two\nlines\n", "E2\n", "\tt\n", "$(c)\n", "`c`\n", "a\\\nb\n", "#nc\n"])
+            body = r.choice(["", "line\n", "a $x\n", "\n", "  two\nlines\n", "E2\n", "\tt\n", "$(c)\n", "`c`\n", "a\\\nb\n", "#nc\n", "\\$x \\\\\n"])
             if op == "<<-":
                 body = "".join("\t" + ln + "\n" for ln in body.split("\n")[:-1])
-            self.pending.append(body + ("\t" if op == "<<-" and r.random() < 0.5 else "") + delim + "\n")
+            tab = r.random() < 0.5
+            dline = ("\t" if op == "<<-" and tab else "") + delim
+            self.pending.append(body + dline + "\n")
             dw = {"": delim, "'": "'" + delim + "'", "\\": "\\" + delim}[q]
-            return r.choice(["", "3"]) + op + r.choice(["", " "]) + dw
+            self.heredocs.append((op, dw, body, dline))
+            return r.choice(["", "3"]) + op + self.O().replace("\t", " ") + dw
         op = r.choice(["<", ">", ">>", ">|", "<&", ">&", "<>"])
         n = r.choice(["", "", "2", "10"])
         target = r.choice(["f", "/dev/null", "$x", '"a b"', "1", "-"])
-        return n + op + r.choice(["", " "]) + target
+        return n + op + self.O().replace("\t", " ") + target
 
     def simple(self, d):
         r = self.r
@@ -91,20 +142,10 @@ class Gen:
             parts.insert(r.randint(0, len(parts)), self.redir(d))
         if not parts:
             parts.append("a")
-        return " ".join(parts)
-
-    def nl(self):
-        """a newline, flushing pending here-documents"""
-        s = "\n" + "".join(self.pending)
-        self.pending = []
+        s = parts[0]
+        for p_ in parts[1:]:
+            s += self.B() + p_
         return s
-
-    def sep(self, after=""):
-        if self.multiline and self.r.random() < 0.3 or self.pending:
-            return self.nl()
-        if after.rstrip().endswith("&") and not after.rstrip().endswith("&&"):
-            return " "
-        return self.r.choice(["; ", ";", " ; "])
 
     def seq(self, d):
         n = self.r.choice([1, 1, 2])
@@ -116,12 +157,20 @@ class Gen:
     def body(self, d):
         """compound_list followed by a separator"""
         s = self.seq(d)
-        return s + self.sep(s)
+        last_line = s.split("\n")[-1]
+        simple_tail = any(ch in last_line for ch in "'\"$`#") or not s.rstrip().endswith(self.CLOSERS)
+        return s + self.sep(s, before_reserved=not simple_tail)
+
+    def brk(self):
+        """a linebreak position after an operator (|, &&, ||): optional newline"""
+        if self.multiline and not self.pending and self.l.random() < 0.2:
+            return self.O().replace("\t", " ") + self.nl(own=False)
+        return self.O()
 
     def andor(self, d):
         s = self.pipeline(d)
         while self.r.random() < 0.2:
-            s += self.r.choice([" && ", " || ", "&&", " ||\n" if not self.pending else " || "]) + self.pipeline(d)
+            s += self.O() + self.r.choice(["&&", "||"]) + self.brk() + self.pipeline(d)
         if self.r.random() < 0.08:
             s += " &"
         return s
@@ -129,8 +178,14 @@ class Gen:
     def pipeline(self, d):
         s = ("! " if self.r.random() < 0.08 else "") + self.command(d)
         while self.r.random() < 0.2:
-            s += self.r.choice([" | ", "|", " |\n" if not self.pending else " | "]) + self.command(d)
+            s += self.O() + "|" + self.brk() + self.command(d)
         return s
+
+    def kw(self):
+        """blank or newline after a keyword such as then / do / else / in"""
+        if self.multiline and not self.pending and self.l.random() < 0.3:
+            return self.nl()
+        return self.B() if self.rich_layout else " "
 
     def command(self, d):
         r = self.r
@@ -138,44 +193,48 @@ class Gen:
         if d <= 0 or k < 0.5:
             return self.simple(d)
         d -= 1
-        sp = lambda: r.choice([" ", " ", "\n" if (self.multiline and not self.pending) else " "])
         if k < 0.57:
-            c = "(" + r.choice(["", " "]) + self.seq(d) + r.choice(["", " ", self.nl() if self.pending else ""]) + ")"
+            inner = self.seq(d)
             if self.pending:
-                c = "( " + self.seq(d) + self.nl() + ")"
+                c = "( " + inner + self.nl() + ")"
+            else:
+                c = "(" + (" " if inner.startswith("(") else self.O()) + inner + self.O() + ")"
         elif k < 0.64:
             c = "{ " + self.body(d) + "}"
         elif k < 0.72:
-            c = "if " + self.body(d) + "then" + sp() + self.body(d)
+            c = "if " + self.body(d) + "then" + self.kw() + self.body(d)
             while r.random() < 0.25:
                 c += "elif " + self.body(d) + "then " + self.body(d)
             if r.random() < 0.4:
-                c += "else" + sp() + self.body(d)
+                c += "else" + self.kw() + self.body(d)
             c += "fi"
         elif k < 0.78:
-            c = r.choice(["while", "until"]) + " " + self.body(d) + "do" + sp() + self.body(d) + "done"
+            c = r.choice(["while", "until"]) + " " + self.body(d) + "do" + self.kw() + self.body(d) + "done"
         elif k < 0.85:
             c = "for " + self.name()
             kk = r.random()
             if kk < 0.6:
-                c += " in " + " ".join(self.word(1) for _ in range(r.choice([0, 1, 3]))) + self.sep()
+                c += " in" + "".join(" " + self.word(1) for _ in range(r.choice([0, 1, 3]))) + self.sep()
             elif kk < 0.8:
                 c += self.sep()
             else:
                 c += " "
             c += "do " + self.body(d) + "done"
         elif k < 0.92:
-            c = "case " + self.word(1) + " in" + sp()
+            c = "case " + self.word(1) + " in" + self.kw()
             for _ in range(r.choice([0, 1, 2])):
                 c += r.choice(["", "("]) + "|".join(self.word(0) if r.random() < 0.7 else "*" for _ in range(r.choice([1, 1, 2]))) + ") "
                 if r.random() < 0.85:
                     c += self.seq(d)
                     if self.pending:
                         c += self.nl()
-                c += " ;;" + sp()
+                c += " ;;" + self.kw()
             c += "esac"
         elif k < 0.96:
-            c = self.name() + "() " + r.choice(["{ " + self.body(d) + "}", "( " + self.seq(d) + (self.nl() if self.pending else " ") + ")"])
+            if r.random() < 0.5:
+                c = self.name() + "() " + "{ " + self.body(d) + "}"
+            else:
+                c = self.name() + "() " + "( " + self.seq(d) + (self.nl() if self.pending else " ") + ")"
         else:
             c = "((" + r.choice([" 1 + 2 ", "x++", "a = b * 2", "1<2"]) + "))"
         if r.random() < 0.12 and not c.startswith("(("):
@@ -185,6 +244,8 @@ class Gen:
     def program(self, d=3):
         """one complete command line (terminated by newline, here-documents flushed)"""
         self.pending = []
+        self.heredocs = []
+        self.comments = []
         s = self.seq(d)
         return s + self.nl()
 
@@ -224,3 +285,23 @@ def describe(case):
     if len(f) > 3 and f[3]:
         s += ", fail_at=%s" % f[3]
     return s + ")"
+
+
+def shrink(src, pred, max_steps=3000):
+    """greedy delta-debugging: drop lines, then blank-separated tokens, then single characters, while pred(src) stays true"""
+    steps = 0
+    for split, join in (("\n", "\n"), (" ", " "), (None, "")):
+        changed = True
+        while changed and steps < max_steps:
+            changed = False
+            parts = list(src) if split is None else src.split(split)
+            for i in range(len(parts)):
+                t = join.join(parts[:i] + parts[i + 1:])
+                steps += 1
+                if t != src and pred(t):
+                    src = t
+                    changed = True
+                    break
+                if steps >= max_steps:
+                    break
+    return src
